@@ -1208,8 +1208,8 @@ def build_fn(ctx, unit, fs):
                 while toks[j].text != "in":
                     j = pair[j] + 1 if toks[j].text in ("(", "[") else j + 1
                 multi.append((toks[j].end, [Seg(f" {ls['iter']}:", ("ins", fn_label + f"/loop{ordn}", "iter-name", None))], 0))
-        # if any anchored hint of this function lost its anchor, all hints of the function are dropped (they may depend on
-        # each other through ghost variables); failures of the function are then undecided
+        # if any anchored hint of this function lost its anchor, all proof hints of the function are dropped (they may depend on
+        # each other); failures of the function are then undecided
         proofs_to_use = fs.proofs
         for where, arg, nth, text, popts in fs.proofs:
             if where in ("before", "after"):
@@ -1217,7 +1217,9 @@ def build_fn(ctx, unit, fs):
                     find_anchor(sf, getattr(it, 'slice_lo', toks[it.body_open].end), getattr(it, 'slice_hi', toks[it.body_close].start), arg, nth, fs.path)
                 except LostAnchor as ex:
                     ctx.dropped_hints.append((fn_label, str(ex)))
-                    proofs_to_use = []
+                    # raw hints declare the ghost variables that loop contracts name: they stay (where their own anchor exists),
+                    # otherwise the unit would not even compile and every other function of it would be undecided too
+                    proofs_to_use = [p_ for p_ in fs.proofs if p_[4].get("raw")]
                     break
         for where, arg, nth, text, popts in proofs_to_use:
             label = f"proof:{where}:{arg}"
@@ -1780,6 +1782,11 @@ def assemble(repo, unit_path, extra_header="", extra_items=None):
         unit.entries.append(("item", ItemSpec(path_, {}, 0)))
     ctx = Ctx(repo)
     ctx.pathmap = [([t.text for t in lex(l)], r) for l, r in unit.pathmap]
+    # N18: std integer conversions whose signature assume_specification cannot name are written as calls of the wrappers in
+    # prelude/std_shims.rs (units that use that prelude)
+    if any(e[0] == "raw" and len(e) > 2 and e[2] == "prelude:prelude/std_shims.rs" for e in unit.entries):
+        for ty in ("u16", "i16", "u32", "i32"):
+            ctx.pathmap.append(([ty, "::", "from_le_bytes"], f"vx_{ty}_from_le_bytes"))
     gen = Generated()
     segs = [Seg(HEADER, ("raw", "header"))]
     if "allocator_api" in " ".join(unit.verus_args):
